@@ -12,8 +12,16 @@ if [ ${#DIRS[@]} -eq 0 ]; then DIRS=($(ls seeded | grep -v MATRIX)); fi
 for D in "${DIRS[@]}"; do
   [ -f "seeded/$D/patch.diff" ] || continue
   ID=${D%%_*}
-  if [ -n "$(git -C /repo status --porcelain)" ]; then echo "/repo is dirty; aborting"; exit 2; fi
-  if ! git -C /repo apply "seeded/$D/patch.diff" 2>/dev/null; then echo "$D: patch does not apply"; continue; fi
+  TARGET=/repo
+  if [ "${SCRATCH:-0}" = "1" ]; then
+    # (while a long background run needs /repo unchanged: a scratch worktree stands in for it)
+    TARGET=/tmp/wt_matrix_$$
+    git -C /repo worktree remove --force "$TARGET" 2>/dev/null
+    git -C /repo worktree add -q "$TARGET" HEAD || exit 2
+    export VERIF_REPO="$TARGET"
+  fi
+  if [ -n "$(git -C $TARGET status --porcelain)" ]; then echo "$TARGET is dirty; aborting"; exit 2; fi
+  if ! git -C $TARGET apply "/verif/seeded/$D/patch.diff" 2>/dev/null; then echo "$D: patch does not apply"; [ "$TARGET" != /repo ] && git -C /repo worktree remove --force "$TARGET"; continue; fi
   CHECKS="$ID"
   [ -f "seeded/$D/also" ] && CHECKS="$CHECKS $(cat seeded/$D/also)"
   RESULTS=""
@@ -26,7 +34,8 @@ for D in "${DIRS[@]}"; do
     echo "$D check $C: exit=$RC violations=$NV ($(( $(date +%s) - T0 )) s) $F"
     RESULTS="$RESULTS{\"check\":\"$C\",\"tier\":\"quick\",\"exit\":$RC,\"violation_lines\":$NV,\"seconds\":$(( $(date +%s) - T0 )),\"first_finding\":\"$F\"},"
   done
-  git -C /repo checkout -- .
+  git -C $TARGET checkout -- .
+  [ "$TARGET" != /repo ] && git -C /repo worktree remove --force "$TARGET"
   git -C /verif checkout -- evidence 2>/dev/null
   find /verif/replays -name '*.json' -delete 2>/dev/null
   python3 - "$D" "[${RESULTS%,}]" <<'PY'
